@@ -794,6 +794,10 @@ class NumericWaveform(ABC, Generic[_TRaw, _TScaled]):
 
     @classmethod
     def _unpickle(cls, args: tuple[Any, ...], kwargs: dict[str, Any]) -> Self:
+        data, dtype = kwargs.get("raw_data"), args[-1]
+        if isinstance(data, np.ndarray) and data.dtype != dtype:
+            # Pickle protocols below 5 store an array of non-native byte order as a native one.
+            kwargs = {**kwargs, "raw_data": data.astype(dtype)}
         return cls(*args, **kwargs)
 
     def __reduce_ex__(self, protocol: SupportsIndex, /) -> tuple[Any, ...]:
